@@ -8,10 +8,12 @@ CONSTANTS
   MaxInj = 2
   InjKinds = @@INJ@@
   RSizes = {"one", "small", "big"}
+  Concurrent = TRUE
+  AtomicFrames = TRUE
   Gen = FALSE
   Emit = FALSE
 INIT Init
 NEXT Next
 VIEW view
-INVARIANTS TypeOK WritesAccepted InOrderPrefix NoForeignKnown EofComplete DoneComplete ReaderAllocBound
+INVARIANTS TypeOK FramesAtomic WritesAccepted InOrderPrefix NoForeignKnown EofComplete DoneComplete ReaderAllocBound
 CHECK_DEADLOCK FALSE
